@@ -114,12 +114,13 @@ func init() {
 		Rule: "rounds: 0-6 subscriptions over keys {A,B} x element types {int,string,any,error,*T,send-only int} x {no context, live context, context cancelled before the publish, context cancelled during it; half of the live/cancelled-during ones made with SubscribeCancel (nil or live parent), cancelled through the function it returned and unsubscribed by the library} x target {buffered and empty, unbuffered with a receiver arriving at a random step, never ready}, one Publish/PublishContext(A, v) per round with v in {int,string,*T,error,nil,float,typed nil pointer}, " +
 			"the readiness/cancellation events (and an optional cancellation of the publish context) fired in a random order while the publish is in flight; oracle: receipts per subscription vs an independent eligibility table (Go assignability; untyped nil => nilable kinds): eligible-and-ready-and-never-cancelled => exactly 1, ineligible => 0, nobody > 1, " +
 			"Publish does not return (publish context live) before an eligible never-cancelled subscription's receiver has even started, Publish returns within the bound once every eligible subscription has received or been cancelled, no panic for any value; registry: duplicate Subscribe (incl. SubscribeCancel on an existing subscription) / unmatched Unsubscribe panic and leave deliveries unchanged, nothing is delivered after Unsubscribe returned; " +
-			"unsubscribe-during-publish: a target unsubscribed (and re-subscribed under another key) while a publish is parked on it must not receive that publish's value afterwards. non-trivial = a round had at least one eligible and one ineligible subscription or an event during the publish; distinct = distinct (subscription plan, value, event order) signatures",
+			"concurrent-publishers: one publisher per key publishing an increasing sequence, all at once through one Notifier, several ready subscriptions per key: each receives exactly its key's sequence. unsubscribe-during-publish: a target unsubscribed (and re-subscribed under another key) while a publish is parked on it must not receive that publish's value afterwards. non-trivial = a round had at least one eligible and one ineligible subscription or an event during the publish; distinct = distinct (subscription plan, value, event order) signatures",
 		Assumptions: []string{"a subscription whose context is cancelled while the publish is in flight may receive 0 or 1 copies", "map iteration order inside the library supplies the internal arrangement; notifier.publish.select is delayed to stretch the gaps between deliveries"},
 		Families: []core.Family{
 			{Name: "rounds", N: core.TierN(3000, 160000), Batch: 50, Run: c15Round},
 			{Name: "registry", N: core.TierN(120, 4800), Batch: 20, Run: c15Registry},
 			{Name: "unsubscribe-during-publish", N: core.TierN(32, 1280), Batch: 8, Run: c15UnsubDuring},
+			{Name: "concurrent-publishers", N: core.TierN(16, 640), Batch: 4, Run: c15ConcurrentPublishers},
 		},
 	})
 }
@@ -421,8 +422,14 @@ func c15Registry(c *core.Ctx) {
 		c.Violate("misuse-unnoticed", "%s did not panic", misuse)
 	}
 	// the registry is unchanged: A reaches chA and chAny once each, B reaches chB
-	n.Publish("A", 1)
-	n.Publish("B", 2)
+	if !core.AwaitDone(core.Go(func() {
+		n.Publish("A", 1)
+		n.Publish("B", 2)
+	}), 5000) {
+		c.Violate("publish-blocked", "after %s (a panic, recovered by its caller) a Publish to ready targets never returned: the misuse did change the Notifier", misuse)
+		c.SetDump(core.DumpAll())
+		return
+	}
 	if len(chA) != 1 || len(chAny) != 1 || len(chB) != 1 {
 		c.Violate("registry-changed", "after %s: Publish(A) reached chA %d / chAny %d times, Publish(B) reached chB %d times (want 1 each)", misuse, len(chA), len(chAny), len(chB))
 	}
@@ -515,4 +522,75 @@ func c15UnsubDuring(c *core.Ctx) {
 	c.Count("unsubscribe_returned_while_parked", map[bool]int{true: 1, false: 0}[early])
 	c.Nontrivial()
 	c.Sig("unsubduring", early)
+}
+
+// c15ConcurrentPublishers: several publishers, one per key, publish their own increasing sequences at the same time
+// through one Notifier; every key has several ready subscriptions (each with a receiver). Every subscription receives
+// exactly its key's sequence, each value once, in order, and nothing of any other key.
+func c15ConcurrentPublishers(c *core.Ctx) {
+	var n bigbuff.Notifier
+	keys := 2 + c.Rng.IntN(3)
+	subsPer := 1 + c.Rng.IntN(6)
+	count := 300 + c.Rng.IntN(500)
+	type sub struct {
+		key  int
+		ch   chan int
+		got  []int
+		done chan struct{}
+	}
+	var subs []*sub
+	for k := 0; k < keys; k++ {
+		for i := 0; i < subsPer; i++ {
+			s := &sub{key: k, ch: make(chan int, c.Rng.IntN(2)), done: make(chan struct{})}
+			subs = append(subs, s)
+			if c.Rng.IntN(2) == 0 {
+				n.Subscribe(k, s.ch)
+			} else {
+				n.SubscribeContext(context.Background(), k, s.ch)
+			}
+			go func() {
+				defer close(s.done)
+				for v := range s.ch {
+					s.got = append(s.got, v)
+				}
+			}()
+		}
+	}
+	var wg sync.WaitGroup
+	for k := 0; k < keys; k++ {
+		k := k
+		wg.Add(1)
+		go func() {
+			defer wg.Done()
+			for v := 0; v < count; v++ {
+				n.Publish(k, k*1000000+v)
+			}
+		}()
+	}
+	desc := fmt.Sprintf("%d publishers (one per key) x %d values, %d ready subscriptions per key", keys, count, subsPer)
+	if !core.AwaitDone(core.Go(wg.Wait), 30000) {
+		c.Violate("publish-blocked", "concurrent publishers did not finish; %s", desc)
+		c.SetDump(core.DumpAll())
+		return
+	}
+	for _, s := range subs {
+		n.Unsubscribe(s.key, s.ch)
+		close(s.ch)
+		<-s.done
+	}
+	for i, s := range subs {
+		if len(s.got) != count {
+			c.Violate("eligible-missed", "subscription %d of key %d received %d values, its key's publisher published %d; %s", i, s.key, len(s.got), count, desc)
+			continue
+		}
+		for j, v := range s.got {
+			if v != s.key*1000000+j {
+				c.Violate("wrong-value", "subscription %d of key %d received %d as its value #%d, want %d (its own key's sequence, each value once, in order); %s", i, s.key, v, j, s.key*1000000+j, desc)
+				break
+			}
+		}
+	}
+	c.Op("publish", keys*count)
+	c.Nontrivial()
+	c.Sig("concurrent-publishers", keys, subsPer)
 }
